@@ -66,6 +66,13 @@ DeltaClauses(r) ==
             <<"reliable-update-an-iterate-for-every-k", wf => (r.nexc = 0 /\ r.nnan = 0 /\ Len(r.err) = r.want)>>,
             <<"reliable-update-iterates=plain-iterates", wf => AllLe(r.err, (-RefBoundNeg) + r.cond)>> >>
 
+\* one object: a call ended by the method's own breakdown exception, then x_k against fresh objects
+AfterBrkClauses(r) ==
+    LET wf == \A f \in {"method", "vt", "cond", "err", "want", "nexc", "nnan", "thrown"} : Has(r, f)
+    IN  <<  <<"wellformed", wf>>,
+            <<"after-own-breakdown-an-iterate-for-every-k", wf => (r.nexc = 0 /\ r.nnan = 0 /\ Len(r.err) = r.want)>>,
+            <<"iterates-after-own-breakdown=fresh-object-iterates", wf => AllLe(r.err, (-RefBoundNeg) + r.cond)>> >>
+
 CgClauses(r) ==
     LET wf == \A f \in {"gap", "orth", "cond", "dim"} : Has(r, f)
     IN  <<  <<"wellformed", wf>>,
@@ -95,6 +102,7 @@ Failed(r) == IF Has(r, "e") THEN (IF r.e = "End" THEN <<>> ELSE <<"recorder:" \o
              ELSE CASE r.k = "tiny"   -> FailedOf(TinyClauses(r))
                     [] r.k = "ref"    -> FailedOf(RefClauses(r))
                     [] r.k = "delta"  -> FailedOf(DeltaClauses(r))
+                    [] r.k = "afterbrk" -> FailedOf(AfterBrkClauses(r))
                     [] r.k = "cgopt"  -> FailedOf(CgClauses(r))
                     [] r.k = "minres" -> FailedOf(MinresClauses(r))
                     [] r.k = "term"   -> FailedOf(TermClauses(r))
